@@ -112,7 +112,7 @@ func sizeUnderLock(q *circularQueue.CircularQueue) int {
 func execQueueSeq(c *child.Ctx, k queueCase, cj []byte) bool {
 	q := circularQueue.NewCircularQueue(k.Cap)
 	var model []int
-	next := 1
+	next := 0 // the first message is the zero value in type and raw data
 	for i := 0; i < len(k.Ops); i++ {
 		if k.Ops[i] == 'A' {
 			q.Add(qmsg(next))
@@ -122,7 +122,7 @@ func execQueueSeq(c *child.Ctx, k queueCase, cj []byte) bool {
 			}
 			next++
 			if n := sizeUnderLock(q); n > k.Cap {
-				c.Violate("holds-more-than-capacity", fmt.Sprintf("capacity %d queue holds %d items after %d additions", k.Cap, n, next-1), cj)
+				c.Violate("holds-more-than-capacity", fmt.Sprintf("capacity %d queue holds %d items after %d additions", k.Cap, n, next), cj)
 				return false
 			}
 		} else {
@@ -143,7 +143,7 @@ func execQueueLong(c *child.Ctx, k queueCase, cj []byte) {
 	var heldIDs []int
 	heldAt := 0
 	for i := 1; i <= k.Adds; i++ {
-		q.Add(qmsg(i))
+		q.Add(qmsg(i - 1)) // identities from 0: the first is the zero value in type and raw data
 		got := q.GetMessages()
 		want := k.Cap
 		if i < want {
@@ -151,7 +151,7 @@ func execQueueLong(c *child.Ctx, k queueCase, cj []byte) {
 		}
 		ok := len(got) == want
 		for j := 0; ok && j < len(got); j++ {
-			if got[j].MessageType != i-want+1+j || !sameMsg(got[j]) {
+			if got[j].MessageType != i-want+j || !sameMsg(got[j]) {
 				ok = false
 			}
 		}
